@@ -43,6 +43,14 @@ func (sp *StakePool) save(sscKey, providerID string, balances cstate.StateContex
 	return
 }
 
+// Save stores the stake pool in the bridge contract's own format. Without it the
+// promoted stakepool.StakePool.Save (used by stakepool.StakePoolLock/Unlock) stores
+// the embedded pool only, which getStakePool cannot decode.
+func (sp *StakePool) Save(providerType spenum.Provider, providerID string, balances cstate.StateContextI) error {
+	_, err := balances.InsertTrieNode(stakepool.StakePoolKey(providerType, providerID), sp)
+	return err
+}
+
 // empty a delegate pool if possible, call update before the empty
 //
 //nolint:unused
